@@ -204,13 +204,35 @@ def _script(ci, src, api):
             f"{_API_CALL[api]}\n")
 
 
+_CHAR_NAMES = {":": "colon", ",": "comma", "(": "lparen", ")": "rparen", "[": "lbracket", "]": "rbracket",
+               "{": "lbrace", "}": "rbrace", "=": "assign", "*": "star", ".": "dot", "'": "quote", '"': "dquote",
+               " ": "blank", "": "eol"}
+
+
 def _py_syntax_sig(e):
+    """Narrow, stable name for a SyntaxError raised by Python's compile() on
+    generated code: the message with names masked, plus (for the catch-all
+    'invalid syntax') the kind of character the compiler points at."""
     msg = e.msg or ""
     if msg.startswith("duplicate argument"):
         return "duplicate-param"
     if msg.startswith("keyword argument repeated"):
         return "repeated-keyword"
-    return _slug(skeleton(msg))
+    if msg.startswith("'break' outside loop"):
+        return "break-outside-loop"
+    if msg.startswith("'continue' not properly in loop"):
+        return "continue-outside-loop"
+    sig = _slug(skeleton(msg))
+    if msg == "invalid syntax" and e.text and e.offset:
+        ch = e.text[e.offset - 1:e.offset]
+        if ch.isalpha() or ch == "_":
+            ch = "name"
+        elif ch.isdigit():
+            ch = "number"
+        else:
+            ch = _CHAR_NAMES.get(ch, "U%04X" % ord(ch))
+        sig += "/at-" + ch
+    return sig
 
 
 class Checker:
@@ -236,62 +258,75 @@ class Checker:
             "script": _script(self.ci, src, api),
         })
 
-    def check(self, src):
+    def check(self, src, full=True):
+        """Apply the oracle to one source.  full=False skips the third entry
+        point when from_string already succeeded (it repeats the same parse,
+        generate and compile() steps)."""
         p = self.p
         p.evals += 1
-        env = make_env(self.ci)  # fresh environment per case
-        api = APIS[0]
-        nontrivial = None
         try:
-            with core.alarm(5):
-                for api in APIS:
-                    try:
-                        if api == "from_string":
-                            r = env.from_string(src)
-                            ok = isinstance(r, self.Template)
-                        elif api == "parse":
-                            r = env.parse(src)
-                            ok = isinstance(r, self.TemplateNode)
+            self._attempt(src, full, 5)
+        except core.CaseTimeout:
+            # a stalled machine must not be reported as a hang: a genuine hang is
+            # deterministic, so it has to time out again (with twice the allowance)
+            n = len(p.viol)
+            try:
+                self._attempt(src, full, 10)
+            except core.CaseTimeout as e:
+                del p.viol[n:]
+                self.bad(f"C01/hang/{_jinja_frame(e.__traceback__)}", src, self._api, "no result within 10 s (twice)")
+            else:
+                del p.viol[n:]  # already recorded by the first attempt
+                p.count("timeouts_not_reproduced")
+
+    def _attempt(self, src, full, seconds):
+        env = make_env(self.ci)  # fresh environment per case
+        nontrivial = None
+        loaded = False
+        with core.alarm(seconds):
+            for api in APIS:
+                self._api = api
+                try:
+                    if api == "from_string":
+                        r = env.from_string(src)
+                        ok = loaded = isinstance(r, self.Template)
+                    elif api == "parse":
+                        r = env.parse(src)
+                        ok = isinstance(r, self.TemplateNode)
+                    else:
+                        if loaded and not full:
+                            continue
+                        r = env.compile(src, raw=True)
+                        ok = isinstance(r, str)
+                        if ok:
+                            compile(r, "<template>", "exec")
+                    if not ok:
+                        self.bad("C01/not-a-template/" + api, src, api, f"returned {type(r).__name__}")
+                    elif nontrivial is None:
+                        nontrivial = "ok"
+                except self.TSE as e:
+                    ln = e.lineno
+                    hi = 1 + line_breaks(src)
+                    msg = e.message or ""
+                    if type(ln) is not int or not (1 <= ln <= hi):
+                        self.bad(f"C01/lineno-out-of-range/{'low' if type(ln) is int and ln < 1 else 'high'}/"
+                                 + _slug(skeleton(msg)), src, api,
+                                 f"{type(e).__name__}({msg!r}) lineno={ln!r}, source has lines 1..{hi}")
+                    if nontrivial is None:
+                        if _LEXER_MSG.match(msg):
+                            nontrivial = False
                         else:
-                            r = env.compile(src, raw=True)
-                            ok = isinstance(r, str)
-                            if ok:
-                                try:
-                                    compile(r, "<template>", "exec")
-                                except SyntaxError as e:
-                                    self.bad("C01/python-syntaxerror/" + _py_syntax_sig(e), src, api,
-                                             f"generated code rejected by compile(): {e.msg}")
-                                    continue
-                        if not ok:
-                            self.bad("C01/not-a-template/" + api, src, api, f"returned {type(r).__name__}")
-                        elif nontrivial is None:
-                            nontrivial = "ok"
-                    except self.TSE as e:
-                        ln = e.lineno
-                        hi = 1 + line_breaks(src)
-                        msg = e.message or ""
-                        if type(ln) is not int or not (1 <= ln <= hi):
-                            self.bad(f"C01/lineno-out-of-range/{'low' if type(ln) is int and ln < 1 else 'high'}/"
-                                     + _slug(skeleton(msg)), src, api,
-                                     f"{type(e).__name__}({msg!r}) lineno={ln!r}, source has lines 1..{hi}")
-                        if nontrivial is None:
-                            if _LEXER_MSG.match(msg):
-                                nontrivial = False
-                            else:
-                                nontrivial = ("TAE:" if isinstance(e, self.TAE) else "TSE:") + skeleton(msg)
-                    except SyntaxError as e:
-                        # Python's own SyntaxError, raised by compile() inside from_string
-                        self.bad("C01/python-syntaxerror/" + _py_syntax_sig(e), src, api,
-                                 f"generated code rejected by compile(): {e.msg}")
-                    except Exception as e:  # noqa: BLE001
-                        self.bad(f"C01/{type(e).__name__}/{_jinja_frame(e.__traceback__)}", src, api,
-                                 f"raised {type(e).__name__}: {str(e)[:200]}")
-        except core.CaseTimeout as e:
-            self.bad(f"C01/hang/{_jinja_frame(e.__traceback__)}", src, api, "no result within 5 s")
-        except RecursionError as e:  # raised outside the inner handlers' reach
-            self.bad(f"C01/RecursionError/{_jinja_frame(e.__traceback__)}", src, api, "RecursionError")
+                            nontrivial = ("TAE:" if isinstance(e, self.TAE) else "TSE:") + skeleton(msg)
+                except SyntaxError as e:
+                    # Python's own SyntaxError: compile() of the generated module, inside
+                    # from_string or in the explicit compile() of the raw source
+                    self.bad("C01/python-syntaxerror/" + _py_syntax_sig(e), src, api,
+                             f"generated code rejected by compile(): {e.msg}: {(e.text or '').strip()[:160]}")
+                except Exception as e:  # noqa: BLE001
+                    self.bad(f"C01/{type(e).__name__}/{_jinja_frame(e.__traceback__)}", src, api,
+                             f"raised {type(e).__name__}: {str(e)[:200]}")
         if nontrivial:
-            p.sig(nontrivial)
+            self.p.sig(nontrivial)
 
 
 # --------------------------------------------------------------------------
@@ -314,8 +349,9 @@ def shard_strings(arg):
         pre, post = translate_fragment(ci, "{{") + " ", " " + translate_fragment(ci, "}}")
 
     def run(frags):
+        full = which != 1 or len(frags) < k
         for s in joins(frags):
-            chk.check(pre + s + post)
+            chk.check(pre + s + post, full)
         if len(p.samples) < 2 and len(frags) == k:
             p.sample({"space": tag, "config": chk.cfg, "fragments": list(frags)}, cap=2)
 
@@ -505,23 +541,29 @@ SHAPES0 = [
 ]
 
 
-def all_shapes():
+HOT_IDS = ["a", "ａ", "ﬁ", "fi", "class", "None", "caller", "varargs", "kwargs", "l_1_a"]
+
+
+def all_shapes(full=True):
+    """full: every ordered identifier pair in the two-name shapes; otherwise
+    pairs over the ten most hostile identifiers only."""
     out = [("shape0", s) for s in SHAPES0]
     for sh in SHAPES1:
         for a in IDS:
             out.append(("shape1", sh.replace("P", a)))
+    ids2 = IDS if full else HOT_IDS
     for sh in SHAPES2:
-        for a in IDS:
-            for b in IDS:
+        for a in ids2:
+            for b in ids2:
                 out.append(("shape2", re.sub(r"[PQ]", lambda m: a if m.group() == "P" else b, sh)))
     return out
 
 
 def shard_shapes(arg):
-    ci, lo, hi = arg
+    ci, full, lo, hi = arg
     p = core.Part()
     chk = Checker(p, ci, "D")
-    for kind, src in all_shapes()[lo:hi]:
+    for kind, src in all_shapes(full)[lo:hi]:
         s = translate_source(ci, src)
         chk.check(s)
         if len(p.samples) < 1 and kind == "shape2":
@@ -580,28 +622,32 @@ def run(ctx: core.Ctx):
     # (c) mutations
     n = len(CORPUS)
     cshards = []
+    d1 = {ci: (n if ci == 0 else (60 if q else 300)) for ci in range(len(CONFIGS))}
     if q:
-        d1_default, d1_other = n, 150
-    else:
-        d1_default, d1_other = n, n
-    d2_seeds = 0 if q else 60
+        d1[0] = min(n, 400)
+    d2 = {ci: (0 if q else (60 if ci == 0 else 15)) for ci in range(len(CONFIGS))}
     for ci in range(len(CONFIGS)):
-        m = d1_default if ci == 0 else d1_other
-        ids = list(range(d2_seeds, m))  # the first d2_seeds seeds are covered at d = 2 (which includes d <= 1)
-        # longest seeds first inside the list is not needed: shards are small
+        ids = list(range(d2[ci], d1[ci]))  # the first d2 seeds are covered at d = 2 (which includes d <= 1)
         for i in range(0, len(ids), 6):
             cshards.append((ci, ids[i:i + 6], 1))
-        for i in range(d2_seeds):
+        for i in range(d2[ci]):
             cshards.append((ci, [i], 2))
-    bounds["d1_seeds_default"] = d1_default
-    bounds["d1_seeds_other_configs"] = d1_other
-    bounds["d2_seeds_per_config"] = d2_seeds
+    bounds["d1_shortest_seeds"] = {CONFIGS[ci][0]: d1[ci] for ci in d1}
+    bounds["d2_shortest_seeds"] = {CONFIGS[ci][0]: d2[ci] for ci in d2}
+    bounds["max_seed_tokens_d1_default"] = sum(1 for t in _seed_tok.findall(CORPUS[d1[0] - 1]) if not t.isspace())
     ctx.pmap(shard_corpus, cshards)
 
     # (d) shapes
-    total = len(all_shapes())
-    step = 2500
-    ctx.pmap(shard_shapes, [(ci, lo, min(total, lo + step)) for ci in range(len(CONFIGS)) for lo in range(0, total, step)])
-    bounds["shape_cases_per_config"] = total
+    step = 1500
+    sshards = []
+    for ci in range(len(CONFIGS)):
+        full = ci == 0 or not q
+        total = len(all_shapes(full))
+        sshards += [(ci, full, lo, min(total, lo + step)) for lo in range(0, total, step)]
+        bounds.setdefault("shape_cases", {})[CONFIGS[ci][0]] = total
+    ctx.pmap(shard_shapes, sshards)
     bounds["identifiers"] = len(IDS)
     ctx.cov["bounds"] = bounds
+    if ctx.counters.get("timeouts_not_reproduced"):
+        ctx.assumptions.append(f"{ctx.counters['timeouts_not_reproduced']} case(s) hit the 5 s alarm once and finished "
+                               "normally when repeated (machine stall); a hang is reported only when it repeats")
